@@ -234,16 +234,27 @@ def run_tmgr_bulk(rp, kind, msgs):
                 {'type': 'pilot', 'uid': c12.pname(p), 'state': st} for p, st in m]})
         except Exception as e:
             err = type(e).__name__
-        out.append({'err': err, 'tracked': {c12.pnum(pid): vals.get(v.get('state'), -1) for pid, v in s._pilots.items()}})
+        out.append({'err': err, 'tracked': {c12.pnum(pid): vals.get(v.get('state'), -1) for pid, v in s._pilots.items()},
+                    'names': {c12.pnum(pid): v.get('state') for pid, v in s._pilots.items()}})
     return out
 
 
 def tmgr_bulk_monitor(rp, msgs, out):
     vals = rp.states._pilot_state_values
     seen = {}
+    done = set()           # pilots the scheduler has seen end DONE: that is why they ended, whatever is reported later
     for k, (m, o) in enumerate(zip(msgs, out)):
-        if o['err']:
+        for p in done:
+            if o['names'].get(p) != 'DONE':
+                return ('tmgr-scheduler:final-state-DONE-replaced', 'pilot %d had ended DONE; after message %d %s the scheduler has it as %s'
+                        % (p, k, m, o['names'].get(p)))
+        # (a different final state reported for a pilot that ended DONE is refused with a ValueError - generated as the
+        #  last notification of its message only, see DESIGN.md 7.3)
+        refused = bool(m) and m[-1][1] in ('FAILED', 'CANCELED') and \
+                  (m[-1][0] in done or any(q == m[-1][0] and st == 'DONE' for q, st in m[:-1]))
+        if o['err'] and not (refused and o['err'] == 'ValueError'):
             return ('tmgr-scheduler:state-message-raises', 'message %d %s raised %s' % (k, m, o['err']))
+        done |= set(p for p, n in o['names'].items() if n == 'DONE')
         for p, st in m:
             seen[p] = max(seen.get(p, -1), vals[st])
         for p, v in seen.items():
@@ -270,6 +281,13 @@ def gen_tmgr_bulk(rng):
                 m.append([p, final[p]])
             else:
                 m.append([p, rng.choice(sts)])
+        # a pilot that has ended is reported once more in ANOTHER final state (the launcher's blanket CANCELED when the
+        # pilot manager closes, a late job state from the batch system)
+        if final and rng.random() < 0.3:
+            p = rng.choice(sorted(final))
+            other = rng.choice([f for f in ('DONE', 'FAILED', 'CANCELED') if f != final[p]])
+            m.append([p, other])
+            if final[p] != 'DONE': final[p] = other        # FAILED / CANCELED may be corrected; DONE stays
         msgs.append(m)
     return msgs
 
@@ -495,7 +513,8 @@ def run(ctx):
                 ctx.fail('tmgr-scheduler:' + sig, what, {'kind': 'tmgr_sched', 'sched': kind, 'ops': script})
                 break
     ctx.obligation('tmgr scheduler: tracked pilot states monitored on the real RoundRobin / Backfilling objects', 'tie', True, '')
-    corpus = [[[[0, 'DONE'], [0, 'PMGR_ACTIVE']]], [[[0, 'PMGR_ACTIVE'], [1, 'NEW'], [0, 'PMGR_ACTIVE_PENDING']], [[1, 'PMGR_ACTIVE']]]]
+    corpus = [[[[0, 'DONE'], [0, 'PMGR_ACTIVE']]], [[[0, 'PMGR_ACTIVE'], [1, 'NEW'], [0, 'PMGR_ACTIVE_PENDING']], [[1, 'PMGR_ACTIVE']]],
+              [[[0, 'DONE']], [[1, 'PMGR_ACTIVE'], [0, 'CANCELED']], [[0, 'PMGR_ACTIVE']]], [[[0, 'PMGR_ACTIVE'], [0, 'DONE'], [0, 'FAILED']]]]
     nb = 0
     for i, msgs in enumerate(corpus + [gen_tmgr_bulk(ctx.rng) for _ in range(ctx.n(200, 5000))]):
         kind = 'bf' if i % 2 else 'rr'
